@@ -94,10 +94,12 @@ class C11(common.Spec):
                     else:
                         _, dest, et, vt, ok = act
                         # a vetoing filter: a function answering False / None, or a DataEdit chain
-                        # whose rejecting step is followed by further steps
+                        # whose rejecting step is followed by further steps, or not_from_undef on data without 'previous'
                         veto = [lambda d: False, lambda d: None,
                                 edzed.DataEdit.modify('source', lambda v: edzed.DataEdit.REJECT)
-                                .add(extra=1).delete('source')][(dest + len(out)) % 3]
+                                .add(extra=1).delete('source'),
+                                # (these events carry no 'previous' item: not_from_undef rejects them)
+                                edzed.not_from_undef][(dest + len(out)) % 4]
                         ev = edzed.Event(blocks[dest], mk_etype(et),
                                          efilter=(lambda d: True) if ok else veto)
                         out.append(('send', ev, vt))
